@@ -12,7 +12,8 @@ WF == /\ Has("ins") => WFL(Rec.ins)
 \* ---- C02
 RotOK == (Rec.op = "rot" /\ Has("outs")) =>
     LET G == Dec(Rec.g) IN
-    \A j \in 1..Len(Rec.ins) :
+    /\ Len(Rec.outs) = Len(Rec.ins)
+    /\ \A j \in 1..Len(Rec.ins) :
         Dec(Rec.outs[j]) = (IF Has("qs") THEN RotMasked(G, Rec.qs, Dec(Rec.ins[j])) ELSE Rot(G, Dec(Rec.ins[j])))
 \* coefficients of polynomials / rank of states / generator object are not touched
 RotFrameOK == (Rec.op = "rot" /\ Has("outs")) =>
@@ -30,7 +31,8 @@ RotSeqOK == (Rec.op = "rotseq" /\ Has("mid")) =>
 \* ---- C03
 TransformOK == (Rec.op = "transform" /\ Has("outs")) =>
     LET mm == DecM(Rec.m) IN
-    \A j \in 1..Len(Rec.ins) :
+    /\ Len(Rec.outs) = Len(Rec.ins)
+    /\ \A j \in 1..Len(Rec.ins) :
         Dec(Rec.outs[j]) = (IF Has("qs") THEN ApplyMasked(mm, Rec.qs, Dec(Rec.ins[j])) ELSE Apply(mm, Dec(Rec.ins[j])))
 TransformFrameOK == (Rec.op = "transform" /\ Has("outs")) =>
     /\ Has("csok") => Rec.csok = TRUE
